@@ -112,7 +112,7 @@ CHECKS = {
         "design_ref": "DESIGN.md §5 C08",
     },
     "C09": {
-        "level": "model_checking", "shards": 6, "deadline_quick": 100, "deadline_thorough": 1500,
+        "level": "model_checking", "shards": 8, "deadline_quick": 100, "deadline_thorough": 1500,
         "engine": "E-WORLD",
         "technique": "explicit-state model checking of the implementation: BFS by replay around one real gossipsub node with peer scoring; every threshold is approached from both sides and at equality through the application-specific score",
         "rule": WORLD_RULE,
